@@ -67,11 +67,16 @@ def _next_sort_index() -> int:
     return _global_event_counter.__next__()
 
 
+def _global_next_sort_index() -> int:
+    """Return the next index of the process-wide counter, ignoring any active per-heap counter."""
+    return _global_event_counter.__next__()
+
+
 def reset_event_counter() -> None:
     """Reset the global event counter to zero.
 
-    Called by Simulation.__init__() so each simulation run gets
-    deterministic sort indices starting from 0.
+    Not called by Simulation: events created before a simulation is
+    constructed must keep sorting before the ones created after it.
     """
     global _global_event_counter
     _global_event_counter = count()
